@@ -33,7 +33,7 @@ impl Prop for P {
     fn meta() -> Meta {
         Meta {
             level: "exploration",
-            rule: "inputs: grammar streams carrying exactly one targeted spec violation (27 directive kinds), 1-3 mutations of valid streams from 4 sources, random bytes (bare and behind a plausible header), each decoded one-shot and under generated chunk/budget schedules in flat and ring mode (ring oracle = ring semantics with the actual initial buffer contents), plus every proper prefix of valid streams with and without more-input announced. Non-trivial = the input got past its first two bytes and the reference inflater read at least one complete block header before its verdict; distinct by input bytes + schedule fingerprint",
+            rule: "inputs: grammar streams carrying exactly one targeted spec violation (27 directive kinds), 1-3 mutations of valid streams from 4 sources, random bytes (bare and behind a plausible header), each decoded one-shot and under generated chunk/budget schedules in flat and ring mode (ring oracle = ring semantics with the actual initial buffer contents), plus every proper prefix of valid streams with and without more-input announced (core decoder flat/ring, vector functions, and the slice-iterator helper with empty slices between the parts). Non-trivial = the input got past its first two bytes and the reference inflater read at least one complete block header before its verdict; distinct by input bytes + schedule fingerprint",
             assumptions: &["reference inflater is the arbiter of validity (self-checked against the grammar and system zlib)", "only the property's own claims are asserted: completion => valid+equal output+equal consumed; prefix => NeedsMoreInput/HasMoreOutput/FailedCannotMakeProgress. 'reference says invalid but crate needs more input' is allowed"],
             dbg: false,
             simd: false,
